@@ -121,6 +121,7 @@ def generate(tape, tier="quick"):
                 link(src, dst, passthrough(), init_pull=True if a2 else None)
         # closing edge
         chain = []
+        via_pull = False
         consumer = comps[ring[0]]
         if regime in ("b", "c"):
             if regime == "b":
@@ -140,7 +141,8 @@ def generate(tape, tier="quick"):
                 chain = [{"kind": "delay_fixed", "d": d} for d in split_delay(tape, total, parts)]
             for _ in range(tape.weighted([(0, 4), (1, 3), (2, 1)])):
                 chain.insert(tape.draw(len(chain) + 1), gen_adapter(tape, PASS))
-            if tape.chance(1, 4):
+            via_pull = tape.chance(1, 4)
+            if tape.chance(1, 4) and not via_pull:
                 chain.insert(0, gen_adapter(tape, ["next", "prev", "linear", "step"]))
         elif regime == "d":
             chain = passthrough(buffering_ok=False)
@@ -149,7 +151,13 @@ def generate(tape, tier="quick"):
                 chain.insert(0, gen_adapter(tape, ["next", "prev", "linear", "step"]))
         else:
             chain = passthrough()
-        cl = link(ring[-1], ring[0], chain, init_pull=True if a2 else None)
+        if regime in ("b", "c") and via_pull:
+            # the ring is closed through a pull-based component; the delay sits downstream of it
+            q = pull(f"p{len(comps)}")
+            link(ring[-1], q, passthrough(buffering_ok=True))
+            cl = link(q, ring[0], chain, init_pull=True if a2 else None)
+        else:
+            cl = link(ring[-1], ring[0], chain, init_pull=True if a2 else None)
         # forward chords (every cycle still runs through the closing edge)
         if n >= 3:
             for _ in range(tape.weighted([(0, 4), (1, 2), (2, 1)])):
